@@ -234,6 +234,53 @@ def run(report, index, tier):
                  'insertion decisions after them, depend on the capture '
                  'flags: %r' % (results,),
                  where='lexers/es5.py:Lexer.token / _token')
+    # with capture on, every comment is handed to exactly one token: the
+    # next real one.  Raw stream [c1, T, c2, <LT>, ID] for every token
+    # type T
+    real_types = [t for t in types if t not in (
+        'LINE_TERMINATOR', 'LINE_COMMENT', 'BLOCK_COMMENT',
+        # never raw tokens / an unmatched `)` is an error of its own
+        'AUTOSEMI', 'RPAREN')]
+    for ttype in real_types:
+        c1 = Obj('LexToken', type='BLOCK_COMMENT', value='/*1*/', lineno=1,
+                 lexpos=0, colno=1)
+        c2 = Obj('LexToken', type='LINE_COMMENT', value='//2', lineno=1,
+                 lexpos=8, colno=9)
+        t1 = Obj('LexToken', type=ttype, value='t', lineno=1, lexpos=6,
+                 colno=7)
+        lt = Obj('LexToken', type='LINE_TERMINATOR', value='\n', lineno=1,
+                 lexpos=11, colno=12)
+        t2 = Obj('LexToken', type='ID', value='b', lineno=2, lexpos=12,
+                 colno=1)
+        it = iter([c1, t1, c2, lt, t2, None])
+        from .c04 import mk_lexer_obj
+        lexer = mk_lexer_obj(lm=M.lexmodel)
+        lexer.with_comments = True
+        lexer.lexer = Obj('PlyLexer', lexdata='ab', lexpos=0,
+                          begin=('pyfunc', lambda state: None))
+        lexer.get_lexer_token = ('pyfunc', lambda it=it: next(it))
+        handed = []
+        try:
+            for _ in range(6):
+                ev = Evaluator(lm, 'Lexer', lmeth, {
+                    'AutoLexToken': lambda: Obj('AutoLexToken')})
+                ret, _ys = ev.call(tokfn, [], self_obj=lexer)
+                if ret is None:
+                    break
+                hs = ret.hidden_tokens if ret.has('hidden_tokens') else []
+                handed.append((ret.type, [h.value for h in (hs or [])]))
+        except Raised as e:
+            handed.append(('raises %s' % e.text, []))
+        comments = [v for _t, hs in handed for v in hs]
+        first = next((hs for t_, hs in handed if t_ != 'AUTOSEMI'), None)
+        r1.check(comments == ['/*1*/', '//2'] and first == ['/*1*/'],
+                 'comments handed over once around %s' % ttype,
+                 'Lexer.token() on [/*1*/ %s //2 <LT> ID] with capture on'
+                 % ttype,
+                 'the tokens carry the hidden comments %r; expected /*1*/ '
+                 'on the %s token and //2 on the next one, each once' % (
+                     handed, ttype),
+                 where='lexers/es5.py:Lexer.token')
     # Node.setpos: the flag decides only whether set_comments is called
     _, setpos = am.find_method('Node', 'setpos')
     if setpos is None:
